@@ -19,6 +19,7 @@
 #include <sys/wait.h>
 #include <signal.h>
 #include <fcntl.h>
+#include <dirent.h>
 #define private public
 #define protected public
 #include "CppUTest/TestHarness.h"
@@ -62,7 +63,7 @@ static void injUnlock(PlatformSpecificMutex m) { perturb(); origUnlock(m); pertu
 
 // ---------------------------------------------------------------- scripts
 struct Op { char kind; unsigned k; size_t sz; int e; };
-struct Blk { void* p; size_t sz; int fam; };       // fam: 0 new, 1 new[], 2 malloc
+struct Blk { void* p; size_t sz; int fam; int bad; char saved; };       // fam: 0 new, 1 new[], 2 malloc; bad: overrun by the script
 struct Thr { unsigned tid; Op* ops; size_t nops; Blk* tbl; size_t ntbl; unsigned long long seed; pthread_t th; size_t pc; };
 static const char* FILE_ = "c10_script.cpp";
 static char neverAllocated[64];
@@ -97,10 +98,10 @@ static void runOps(Thr* t)
         if (o.kind == 't') return;
         t->pc++;
         Blk& b = t->tbl[o.k];
-        if (o.kind == 'a') { b.p = allocEntry(o.e, o.sz); b.sz = o.sz; b.fam = famOfAllocEntry(o.e); if (b.p) memset(b.p, 0x5a, o.sz); }
+        if (o.kind == 'a') { b.p = allocEntry(o.e, o.sz); b.sz = o.sz; b.fam = famOfAllocEntry(o.e); b.bad = 0; if (b.p) memset(b.p, 0x5a, o.sz); }
         else if (o.kind == 'f') { void* p = b.p; b.p = nullptr; releaseEntry(o.e, p); }
-        else if (o.kind == 'r') { void* p = b.p; b.p = nullptr; void* q = cpputest_realloc_location(p, o.sz, FILE_, 11); b.p = q; b.sz = o.sz; b.fam = 2; }
-        else if (o.kind == 'o') { if (b.p) ((char*) b.p)[b.sz] = 'x'; }
+        else if (o.kind == 'r') { void* p = b.p; b.p = nullptr; void* q = cpputest_realloc_location(p, o.sz, FILE_, 11); b.p = q; b.sz = o.sz; b.fam = 2; b.bad = 0; }
+        else if (o.kind == 'o') { if (b.p && !b.bad) { b.saved = ((char*) b.p)[b.sz]; ((char*) b.p)[b.sz] = 'x'; b.bad = 1; } }
         else if (o.kind == 'w') releaseEntry(o.e, neverAllocated + 16);
     }
 }
@@ -248,7 +249,11 @@ static void scenarioChild(Toks& t, int wfd)
         for (size_t j = i + 1; j < nents; j++) if (ents[i].number == ents[j].number) distinct = 0;
     }
     // release everything that is still held (through the matching entry point), then back to the default overloads
-    for (unsigned i = 0; i < n; i++) for (size_t k = 0; k < thr[i].ntbl; k++) if (thr[i].tbl[k].p) { void* p = thr[i].tbl[k].p; thr[i].tbl[k].p = nullptr; releaseEntry(thr[i].tbl[k].fam, p); }
+    for (unsigned i = 0; i < n; i++) for (size_t k = 0; k < thr[i].ntbl; k++) if (thr[i].tbl[k].p) {
+        Blk& b = thr[i].tbl[k]; void* p = b.p; b.p = nullptr;
+        if (b.bad) ((char*) p)[b.sz] = b.saved;      // a block the script overran and still holds: not the cleanup's business
+        releaseEntry(b.fam, p);
+    }
     size_t n2 = d->totalMemoryLeaks(mem_leak_period_all);
     MemoryLeakWarningPlugin::turnOnDefaultNotThreadSafeNewDeleteOverloads();
 
@@ -267,6 +272,35 @@ static void scenarioChild(Toks& t, int wfd)
     _exit(0);
 }
 
+// A deadlocked child burns no CPU and all its threads sleep.  Waiting for the full deadline on every such scenario would
+// make a run on a broken tree take hours, so the child is also declared hung when for `quiet` seconds its CPU time has not
+// moved and no thread was seen runnable (sampled every 20 ms); the window halves after every hang found (never below 0.1 s).
+static double quietWindow = 0.6;
+static bool childProgress(pid_t pid, unsigned long long& ticks)
+{
+    char path[64], buf[1024]; bool running = false; unsigned long long total = 0;
+    snprintf(path, sizeof path, "/proc/%d/task", (int) pid);
+    DIR* dir = opendir(path);
+    if (!dir) return true;
+    while (struct dirent* de = readdir(dir)) {
+        if (de->d_name[0] == '.') continue;
+        char sp[160]; snprintf(sp, sizeof sp, "/proc/%d/task/%s/stat", (int) pid, de->d_name);
+        int fd = open(sp, O_RDONLY); if (fd < 0) continue;
+        ssize_t len = read(fd, buf, sizeof buf - 1); close(fd); if (len <= 0) continue; buf[len] = 0;
+        char* rp = strrchr(buf, ')'); if (!rp) continue;
+        char state = 0; unsigned long long ut = 0, stt = 0;
+        // after ") ": state ppid pgrp session tty tpgid flags minflt cminflt majflt cmajflt utime stime
+        if (sscanf(rp + 2, "%c %*d %*d %*d %*d %*d %*u %*u %*u %*u %*u %llu %llu", &state, &ut, &stt) == 3) {
+            total += ut + stt;
+            if (state == 'R' || state == 'D') running = true;
+        }
+    }
+    closedir(dir);
+    bool moved = running || total != ticks;
+    ticks = total;
+    return moved;
+}
+
 static void scenario(Toks& t, double deadline)
 {
     int fd[2]; if (pipe(fd) != 0) { perror("pipe"); exit(3); }
@@ -279,12 +313,18 @@ static void scenario(Toks& t, double deadline)
     std::string got; char buf[4096];
     int status = 0; bool done = false;
     fcntl(fd[0], F_SETFL, O_NONBLOCK);
+    unsigned long long ticks = 0; double quiet = 0;
     for (int i = 0; i < (int) (deadline * 200); i++) {
         for (;;) { ssize_t len = read(fd[0], buf, sizeof buf); if (len > 0) got.append(buf, (size_t) len); else break; }
         if (waitpid(pid, &status, WNOHANG) == pid) { done = true; break; }
         usleep(5000);
+        if (i % 4 == 3) { if (childProgress(pid, ticks)) quiet = 0; else quiet += 0.02; if (quiet >= quietWindow) break; }
     }
-    if (!done) { kill(pid, SIGKILL); waitpid(pid, &status, 0); close(fd[0]); printf(":hang\n"); fflush(stdout); return; }
+    if (!done) {
+        kill(pid, SIGKILL); waitpid(pid, &status, 0); close(fd[0]);
+        quietWindow = quietWindow / 2 < 0.1 ? 0.1 : quietWindow / 2;
+        printf(":hang\n"); fflush(stdout); return;
+    }
     for (;;) { ssize_t len = read(fd[0], buf, sizeof buf); if (len > 0) got.append(buf, (size_t) len); else break; }
     close(fd[0]);
     if (WIFEXITED(status) && WEXITSTATUS(status) == 0 && !got.empty() && got[got.size() - 1] == '\n') { fputs(got.c_str(), stdout); fflush(stdout); return; }
